@@ -16,7 +16,7 @@ Obs(o) == [k |-> o.k, code |-> o.code, cls |-> o.cls, v |-> Dec(o.v), num |-> De
 
 RowOk(r) ==
     LET o == Obs(r.obs) IN
-    IF r.kind \notin {"num", "numsuf"} THEN o.k = "err"                     \* a non-numeric element is rejected
+    IF r.kind \notin {"num", "numsuf"} THEN Rejected(o)                   \* a non-numeric element is rejected
     ELSE /\ ((o.k = "ok") <=> r.upok)                                       \* matching ignores letter case
          /\ (<<r.t, r.q, UpperSeq(r.suf)>> \in CoreSuffixes => o.k = "ok")   \* a defined suffix keeps converting
          /\ CASE r.t = "unit" -> UnitOk(r.q, r.lit, r.suf, o)
